@@ -224,6 +224,14 @@ func (p c13) Run(c *core.Ctx) {
 			c.Violate("markup parsing does not recover the text and the enclosed ranges: "+d, detail(map[string]any{"got_text": res.Text, "got_attributes": describeGot(res)}))
 			return
 		}
+		// the result is the caller's: it writes a property of its own into every attribute; no later result
+		// (of any parser value) may show it
+		for _, a := range res.Attributes {
+			if a.Properties != nil {
+				a.Properties["written-by-the-caller"] = markup.Value{IntegerValue: i, ValueType: markup.ValueTypeInteger}
+				c.Feature("attribute-maps-written-by-the-caller")
+			}
+		}
 		nt := false
 		for _, f := range mc.Features {
 			if f == "two-ranges-intersect" || f == "multi-byte-before-or-between-markers" || strings.HasPrefix(f, "replacement") {
